@@ -121,6 +121,9 @@ func VerifTempDir() string {
 	return d
 }
 
+// VerifMaxSteps raises the engine's per-path instruction budget (for one long concrete computation).
+func VerifMaxSteps(n int) {}
+
 // VerifStepBudget declares that the code that follows must finish within n
 // interpreted instructions; exceeding it is reported as a hang.  Natively the
 // replay driver's wall-clock limit plays that role.
